@@ -187,7 +187,9 @@ class Exponential(DPMechanism):
         if np.any(rand < self._probabilities):
             idx = np.argmax(rand < self._probabilities)
         elif np.isclose(rand, self._probabilities[-1]):
-            idx = len(self._probabilities) - 1
+            # The cumulative sum fell short of 1 by rounding: take the last candidate with non-zero probability, i.e.
+            # the first index at which the cumulative sum reaches its final value
+            idx = int(np.argmax(self._probabilities == self._probabilities[-1]))
         else:
             raise RuntimeError("Can't find a candidate to return. "
                                f"Debugging info: Rand: {rand}, Probabilities: {self._probabilities}")
